@@ -48,17 +48,24 @@ def run(P: Program, rep: Report):
 
     rep.rule("C12.R2", "entry of the function: surrounding whitespace is stripped (space, CR, LF, tab), an empty list is returned "
                        "for whitespace-only input")
-    strips = [n for n in own_nodes(fi.node) if isinstance(n, ast.Call) and isinstance(n.func, ast.Attribute) and n.func.attr == "strip"]
-    def strip_chars(c):
-        if not c.args:
-            return set(" \r\n\t")
-        try:
-            v = P.fold(fi.module, c.args[0])
-            return set(v) if isinstance(v, (str, list, tuple, set, frozenset)) else None
-        except ValueError:
-            return None
-    ok = len(strips) >= 1 and all(strip_chars(c) == set(" \r\n\t") for c in strips)
-    rep.check(ok, "C12.R2", "strip-argument", fi.loc, "the input is not stripped of exactly space / CR / LF / tab before splitting")
+    def edges(ctx):
+        it = driver_interp(P, ctx, "middlewares.names")
+        out = []
+        for lead, trail in ((" ", "\t"), ("\r\n", " \n"), ("\u00a0", ""), ("", "\x0c"), ("\x0b", "\u2009"), ("\u3000", "\x85"), ("\x1c", "\x1f")):
+            text = lead + "Ann A and Bob B" + trail
+            try:
+                r = call_func(it, fi, text)
+                out.append((lead, trail, list(r.items) if isinstance(r, AList) else repr(r)))
+            except (Raised, Unsupported) as e:
+                out.append((lead, trail, str(e)))
+        return out
+    WS4 = " \r\n\t"
+    for ctx, rows in explore(edges, 5):
+        for lead, trail, got in rows:
+            want = [(lead.strip(WS4) + "Ann A"), ("Bob B" + trail.strip(WS4))]
+            rep.check(got == want, "C12.R2", f"edge-characters:{lead!r}:{trail!r}", fi.loc,
+                      f"name list {lead + 'Ann A and Bob B' + trail!r} splits into {got!r}, expected {want!r}: only space, CR, LF and tab are whitespace for "
+                      f"the splitter; other characters (no-break space, form feed, thin space ...) belong to the names")
 
     def empty(ctx):
         it = driver_interp(P, ctx, "middlewares.names")
@@ -103,6 +110,29 @@ def run(P: Program, rep: Report):
     for ctx, v in explore(separate, 5):
         ok = isinstance(v, list) and isinstance(v[0], AList) and v[0].items == ["Ann A", "{B and C}", "D"] and v[1] == "x and y"
         rep.check(ok, "C12.R3", "separate-name-fields-only", sc.loc, f"SeparateCoAuthors yields {v!r}")
+
+    rep.rule("C12.R4", "through the middleware: SeparateCoAuthors splits the field value it finds - values that merely start and end with a "
+                       "brace or a quote (`{Simon and Schuster}`, `{Barnes} and {Noble}`) keep those characters; the pieces are those of the function")
+
+    def through(ctx):
+        it = driver_interp(P, ctx, "middlewares.names")
+        mk = lambda c, *a, **k: new_obj(it, P, "model", c, *a, **k)
+        vals = ["{Simon and Schuster}", "{Barnes} and {Noble}", '"Ann A" and "Bob B"', "Ann A and {B and C}", " Ann A and Bob B "]
+        out = []
+        for v in vals:
+            e = mk("Entry", entry_type="a", key="k", start_line=0, raw="r", fields=AList([mk("Field", key="author", value=v, start_line=1)]))
+            try:
+                r = call(it, it.construct(sc, [], {}), "transform_entry", e, Unknown("lib"))
+                got = it.get_attr(it.iterate(it.get_attr(r, "fields"))[0], "value")
+                want = call_func(it, fi, v)
+                out.append((v, list(got.items) if isinstance(got, AList) else repr(got), list(want.items) if isinstance(want, AList) else repr(want)))
+            except (Raised, Unsupported) as ex_:
+                out.append((v, str(ex_), None))
+        return out
+    for ctx, rows in explore(through, 5):
+        for v, got, want in rows:
+            rep.check(got == want, "C12.R4", f"middleware-passes-value:{v!r}", sc.loc,
+                      f"SeparateCoAuthors turns {v!r} into {got!r}; splitting that value gives {want!r}")
 
     rep.rule("C12.R9", "no unsafe memoisation in the modules this property rests on: a function decorated with lru_cache / cache / "
                       "cached_property neither takes nor returns a mutable object (else later calls see stale or shared results)")
